@@ -155,6 +155,22 @@ def is_decomposable_shape(ctx: Ctx) -> Ob:
         and isinstance(it2.args[0].args[0], ast.Name)
         and it2.args[0].args[0].id == p
     )
+    adjacent = (
+        isinstance(it2, ast.Call)
+        and unparse(it2.func) in ("itertools.pairwise", "pairwise")
+        and len(it2.args) == 1
+        and isinstance(it2.args[0], ast.Call)
+        and isinstance(it2.args[0].func, ast.Attribute)
+        and it2.args[0].func.attr == "layer_inputs"
+    ) or (
+        isinstance(it2, ast.Call)
+        and unparse(it2.func) == "zip"
+        and len(it2.args) == 2
+        and isinstance(it2.args[1], ast.Subscript)
+        and isinstance(it2.args[1].slice, ast.Slice)
+    )
+    if adjacent and dom is not None:
+        return viol("R7d", fq, inst, f"decomposability only compares *adjacent* inputs (`{unparse(it2)[:80]}`): the definition is disjointness of every unordered pair, so the answer depends on the order a product lists its inputs", f.loc)
     if dom is None or p is None or not comb or not (isinstance(pair_t, ast.Tuple) and len(pair_t.elts) == 2 and all(isinstance(x, ast.Name) for x in pair_t.elts)):
         return unres("R7d", fq, inst, "domain not in the recognised form (product layers x combinations(inputs, 2)): no verdict", f.loc)
     k = it2.args[1]
@@ -229,8 +245,63 @@ def unique_factorization(ctx: Ctx) -> Ob:
     return viol("R7d", fq, inst, f"`{unparse(elt)}` does not bound the number of factorizations per scope by one", f.loc)
 
 
+def _base_roots(ld, e: ast.AST, depth: int = 0) -> set[str]:
+    """the names a container expression is taken *from* (``d[k]``, ``d.get(k)``, ``x.attr`` -> d / x),
+    followed through local definitions; keys / arguments are not roots"""
+    while isinstance(e, (ast.Subscript, ast.Attribute)) or (isinstance(e, ast.Call) and isinstance(e.func, ast.Attribute)):
+        e = e.func.value if isinstance(e, ast.Call) else e.value
+    if not isinstance(e, ast.Name) or depth > 6:
+        return set()
+    if e.id in ld.defs and e.id not in ld.params:
+        out: set[str] = set()
+        for d in ld.defs[e.id]:
+            out |= _base_roots(ld, d, depth + 1)
+        return out
+    return {e.id}
+
+
+def compat_unique(ctx: Ctx) -> list[Ob]:
+    """_are_compatible answers False for a common scope that either side factorizes in more than one
+    way: the number of factorizations of *each* side (found by def-use from the two parameters, not
+    by name) is consulted by a refusing test that fires when that number is 2."""
+    from ..flow import LocalDefs
+    from ..model import dotted
+
+    fq = "cirkit.symbolic.circuit._are_compatible"
+    f = ctx.repo.func(fq)
+    ld = LocalDefs(f.node)
+    params = [p.name for p in f.params][:2]
+    if len(params) != 2:
+        return [unres("R7d", fq, "unique-factorization", "signature changed: no verdict", f.loc)]
+    refusing: list[ast.If] = []
+    for n in walk_no_nested(f.node):
+        if isinstance(n, ast.If) and n.body and isinstance(n.body[-1], ast.Return) and isinstance(n.body[-1].value, ast.Constant) and n.body[-1].value.value is False:
+            refusing.append(n)
+    out: list[Ob] = []
+    if not refusing:
+        return [unres("R7d", fq, "unique-factorization", "no `if ..: return False` in the function (another formulation): no verdict", f.loc)]
+    for k, pn in enumerate(params, 1):
+        inst = f"unique-factorization:side{k}"
+        lens: list[tuple[ast.If, ast.Call]] = []
+        for n in refusing:
+            for c in ast.walk(n.test):
+                if isinstance(c, ast.Call) and isinstance(c.func, ast.Name) and c.func.id == "len" and len(c.args) == 1:
+                    roots = _base_roots(ld, c.args[0])
+                    if pn in roots and not (set(params) - {pn}) & roots:
+                        lens.append((n, c))
+        if not lens:
+            out.append(viol("R7d", fq, inst, f"no refusing test consults how many ways `{pn}` factorizes a common scope: two circuits that both split a scope in the same several ways are reported compatible", f.loc))
+            continue
+        good = any(fires(n.test, {unparse(c): 2})[0] == ALWAYS for n, c in lens)
+        if good:
+            out.append(ok("R7d", fq, inst, f"refuses when `{pn}` has two factorizations of a common scope", f.loc))
+        else:
+            out.append(viol("R7d", fq, inst, f"the test on the number of factorizations of `{pn}` does not refuse two factorizations of a common scope", f.loc))
+    return out
+
+
 def r7d(ctx: Ctx) -> list[Ob]:
     # NOTE: `preconditions` (stronger predicates answer False for non-smooth / non-decomposable
     # operands) is deliberately NOT armed: C08 as stated does not require it, so arming it would
     # demand more than the property says.
-    return [is_smooth_shape(ctx), is_decomposable_shape(ctx), unique_factorization(ctx)]
+    return [is_smooth_shape(ctx), is_decomposable_shape(ctx), unique_factorization(ctx)] + compat_unique(ctx)
